@@ -1036,6 +1036,11 @@ def mon_B(case, pid):
                         yield finding("C13", st, f"{req[0]} issued after shutdown() had returned answered {res}", "C13/write-after-shutdown/layerB")
                     if req[0] in ("get", "getref") and res != "value -":
                         yield finding("C13", st, f"{req[0]} issued after shutdown() had returned answered {res}", "C13/read-after-shutdown/layerB")
+                    # a multi-key read issued after shutdown() had returned: the empty map / an iteration that yields nothing.
+                    # (One that was IN FLIGHT when the flag was set may answer `None` for keys it never looked up — without
+                    # a miss — or a prefix: every load of the flag is an action of its own, LayerB.lean `CPc.mgetFlag`.)
+                    if req[0] == "mget" and res.strip() != "values":
+                        yield finding("C13", st, f"{req[0]} issued after shutdown() had returned answered {res}", "C13/read-after-shutdown/layerB")
         if pid == "C17":
             # a call that panics in its caller, a background thread that ends while the cache is running
             cs = getattr(mon_B, "_c17", None)
